@@ -59,6 +59,18 @@ func genC10(r *h.Rng, tier string, idx int) *h.Plan {
 		}
 		return rule
 	}
+	if r.P(1, 4) {
+		// a rule added again under an id whose previous holder has expired but
+		// has not been looked at yet (only the item it depended on has): it is a
+		// new rule from the moment the add succeeds
+		p.Cfg["mode"] = "readd-after-expiry"
+		p.Ops = append(p.Ops,
+			h.Op{K: "addrule", Loc: "L", Id: "r1", J: map[string]interface{}{"when": map[string]interface{}{"pattern": map[string]interface{}{"ev": "r1"}}, "action": map[string]interface{}{"code": "'r1.old'"}, "ttl": "10s"}},
+			h.Op{K: "addrule", Loc: "L", Id: "r2", J: map[string]interface{}{"when": map[string]interface{}{"pattern": map[string]interface{}{"ev": "r2"}}, "action": map[string]interface{}{"code": "'r2.old'"}, "ttl": "10s", "deleteWith": []interface{}{"r1"}}},
+			h.Op{K: "sleep", N: int64(12 * time.Second)},
+			h.Op{K: "getfact", Loc: "L", Id: "r1", Q: true},
+			h.Op{K: "addrule", Loc: "L", Id: "r2", J: mkRule("r2")})
+	}
 	n := r.Range(6, 22)
 	for i := 0; i < n; i++ {
 		loc := r.Pick(locs)
